@@ -176,6 +176,20 @@ func inverseTransform(t *Transform, rowStart, rowEnd int, in, out []uint32) {
 		}
 
 	case ColorIndexingTransform:
+		if t.Bits > 0 && numPixels > 0 && &in[0] == &out[0] {
+			// In-place unpacking (a previous inverse transform, e.g. the
+			// predictor, already wrote its result to out): the expanded
+			// pixels would overwrite packed pixels that are still to be
+			// read. Move the packed pixels to the end of the unpacked
+			// region so that unpacking can proceed seamlessly. Note that
+			// this is the only transform whose input has an effective width
+			// of VP8LSubSampleSize(XSize, Bits) rather than XSize.
+			// Matches VP8LInverseTransform in libwebp/src/dsp/lossless.c.
+			numPacked := numRows * VP8LSubSampleSize(width, t.Bits)
+			src := out[numPixels-numPacked : numPixels]
+			copy(src, out[:numPacked])
+			in = src
+		}
 		colorIndexInverseTransform(t, rowStart, rowEnd, in, out)
 	}
 }
